@@ -201,8 +201,13 @@ class Behavior(_IModel):
         # the local problem collapses to one scalar when the surface is quadratic and nothing
         # else evolves; the decomposition it runs in is built here, once, not per Gauss point
         self.solver = solver
+        self.__Build_eigen()
+
+    def __Build_eigen(self) -> None:
+        """The decomposition the spectral return runs in, for the elastic stiffness as it is now."""
+        self.__eigen_C = self.C
         self.__eigen = (
-            _spectral.Build(*elastic.Get_sqrt_C_S(), yieldSurface.P)
+            _spectral.Build(*self.__elastic.Get_sqrt_C_S(), self.__yield.P)
             if self.__Is_reducible()
             else None
         )
@@ -422,6 +427,9 @@ class Behavior(_IModel):
                 zOld_e_pg,
                 np.ones((Ne, nPg), dtype=bool),
             )
+        if not np.array_equal(self.C, self.__eigen_C):
+            # the elastic law was modified since the decomposition was built
+            self.__Build_eigen()
         if self.__eigen is not None:
             return self.__Spectral(eps6_e_pg, zOld_e_pg, C6_e_pg, dt)
         return self.__Flow(eps6_e_pg, zOld_e_pg, C6_e_pg, dt)
